@@ -222,13 +222,17 @@ def r4_final_raise(ctx):
         drops = [cfg.nodes[i].ast for i in true_nodes if cfg.nodes[i].kind == "stmt" and any(callee_last(c) == "drop_invalid_rows" for c in calls_in(cfg.nodes[i].ast))]
         good_raise = [r for r in raises if isinstance(r.exc, ast.Call) and callee_last(r.exc) == "SchemaErrors"
                       and kw(r.exc, "schema_errors") is not None and txt(kw(r.exc, "schema_errors")).endswith(".schema_errors")]
-        ok = bool(good_raise) and len(good_raise) == len(raises)
+        from ..util import bool_atoms
+        extra_atoms = [a for a in bool_atoms(t.ast) if "collected_errors" not in a and a != "lazy"]
+        ok = bool(good_raise) and len(good_raise) == len(raises) and not extra_atoms
         # every normal return is reached through the False branch or a drop
         pc = path_condition(cfg, t.id)
         lazy_only = any("lazy" == n for n in pc[0])
         ctx.ob("R4", f, f"{f.short}: collected errors end in SchemaErrors(schema_errors=handler.schema_errors)", ok,
                f"{len(good_raise)} raise(s) of SchemaErrors with the handler's errors" + (f", {len(drops)} drop_invalid_rows path(s)" if drops else "")
-               if ok else f"true branch of `{txt(t.ast)}` has raises {[txt(r)[:40] for r in raises]}", f.loc(t.ast))
+               if ok else (f"collected errors are raised only when `{txt(t.ast)}`: the extra condition(s) {extra_atoms} let a lazy run with "
+                           "collected errors return normally" if extra_atoms else
+                           f"true branch of `{txt(t.ast)}` has raises {[txt(r)[:40] for r in raises]}"), f.loc(t.ast))
         rets = [n for n in cfg.nodes if n.kind == "stmt" and isinstance(n.ast, ast.Return)]
         bypass = None
         for r in rets:
